@@ -355,3 +355,22 @@ fn d15_rule_matches_its_own_url_whatever_the_marketing_flag() {
         assert_eq!(ids(&router, &q).len(), if ignore { 1 } else { 0 });
     }
 }
+
+/// D18 (C10, R10.6): header conditions match header names case-insensitively but the marker capture
+/// compares them exactly, so a rule matches and yet its marker is not substituted.
+#[test]
+fn d18_header_marker_is_captured_whatever_the_case_of_the_header_name() {
+    let cfg = RouterConfig::default();
+    let mut router = Router::<Rule>::from_config(cfg.clone());
+    router.insert(rule(
+        r#"{"id":"r1","rank":1,"status_code":301,"target":"/lang/@l","source":{"path":"/a","headers":[{"name":"x-lang","type":"match_regex","value":"@l"}]},"markers":[{"name":"l","regex":"[a-z]+"}]}"#,
+    ));
+    for name in ["x-lang", "X-Lang"] {
+        let mut q = Request::from_config(&cfg, "/a".to_string(), None, None, None, None, None);
+        q.add_header(name.to_string(), "fr".to_string(), false);
+        assert_eq!(ids(&router, &q), vec!["r1".to_string()], "header name {}", name);
+        let mut action = Action::from_routes_rule(router.match_request(&q), &q, None);
+        let h = action.filter_headers(Vec::new(), 0, false, None);
+        assert_eq!(h.iter().map(|h| h.value.clone()).collect::<Vec<_>>(), vec!["/lang/fr".to_string()], "header name {}", name);
+    }
+}
